@@ -11,7 +11,7 @@ func init() {
 	register(&propInfo{
 		ID:          "C13",
 		Run:         runC13,
-		MinObl:      22,
+		MinObl:      24,
 		Explanation: "Decided: R1 pipeline — every non-PAR success exit of NewAuthorizeRequest requires: client lookup nil; the request-object step nil; ParseResponseMode nil; the redirect matcher's nil error and IsValidRedirectURI; a registered response-type combination matched with Arguments.Matches (set equality); the response mode default or equal to one of the client's registered modes; len(state) ≥ GetMinParameterEntropy; and openid ⇒ redirect_uri present; R2 grant gates: every access-token issuance in an authorization-endpoint handler (OAuth2 implicit, OIDC implicit, hybrid) and the ID-token issuance of the OIDC implicit handler require Has(grant types, implicit); hybrid code issuance and the code-flow token validation require Has(grant types, authorization_code) (observed, not claimed: hybrid 'code id_token' issues its ID token under the authorization_code gate only); R3 nonce: OIDC implicit issues only with len(nonce) ≥ minimum entropy > 0; hybrid requires a nonce when id_token is requested and ≥ minimum entropy when one is present; R4 request objects: the key function returns the none opt-in constant only under (registered alg empty ∨ equal to the header alg) ∧ method none, asymmetric arms obtain the key through the client's JWKS lookup, other algorithms fail; request_uri is fetched only if listed in the client's request URIs; success requires Claims.Valid()==nil; R5 placement: handlers set the default response mode to fragment before issuing access/ID tokens; NewAuthorizeResponse succeeds only if all response types were handled and not (default fragment ∧ mode query); the writer's query arm is reached only for mode query/default; R6 state echo: every issuing handler adds state=GetState(request) and the error writer sets it before redirecting. R4 also: after request-object claims were merged into the form, request.State is read from the merged form (evaluation clock); R6 SetDefaultResponseMode records its argument in DefaultResponseMode on every path, so the query-mode guard of NewAuthorizeResponse always has a default to compare with. NOT decided: the bytes written, go-jose verification.",
 	})
 }
@@ -441,6 +441,35 @@ func c13R4(c *Ctx) {
 				okU, wU = false, p
 			}
 		}
+		// ... and the object a request_uri refers to is *used* only if the URI is listed (a cached copy
+		// served before the whitelist test bypasses it): wherever the parser runs on a path that knows the
+		// request_uri parameter to be non-empty, the whitelist literal holds
+		if pw := p.First("jwt.ParseWithClaims"); pw != nil {
+			for _, f := range p.Facts[:min(pw.NFacts, len(p.Facts))] {
+				if f.Atom.Kind != "EQ" || f.Pol {
+					continue
+				}
+				for _, pr := range [][2]*Term{{f.Atom.A, f.Atom.B}, {f.Atom.B, f.Atom.A}} {
+					loc := pr[0]
+					if loc.IsCall("len") && len(loc.Args) == 1 {
+						loc = loc.Args[0]
+					}
+					if !(loc.IsCall(".Get") && len(loc.Args) == 2 && loc.Args[1].Key() == tStr("request_uri").Key()) {
+						continue
+					}
+					if k := pr[1].Key(); k != tStr("").Key() && k != tInt(0).Key() {
+						continue
+					}
+					nFetch++
+					v, k := p.BoolCallAt(pw, "stringslice.Has", func(t *Term) bool {
+						return len(t.Args) == 2 && t.Args[0].IsCall(".GetRequestURIs") && t.Args[1].Key() == loc.Key()
+					})
+					if !(k && v) {
+						okU, wU = false, p
+					}
+				}
+			}
+		}
 		if p.Success() && p.Kind == "return" {
 			pw := p.First("jwt.ParseWithClaims")
 			if pw == nil {
@@ -485,7 +514,7 @@ func c13R4(c *Ctx) {
 	if nSt > 0 {
 		c.Check(okSt, rule, role, ro, "state-read-after-merge", "after request-object claims were merged into the form, request.State is read from the merged form", "State keeps a value read before the merge (the echoed state and the form disagree)", wSt)
 	}
-	c.Check(okU && nFetch > 0, rule, role, ro, "request-uri-whitelisted", "a request_uri is fetched only if it is listed in the client's registered request URIs", "the HTTP fetch is reachable without the whitelist test", wU)
+	c.Check(okU && nFetch > 0, rule, role, ro, "request-uri-whitelisted", "a request_uri is fetched, and the object it refers to is parsed, only if it is listed in the client's registered request URIs", "the HTTP fetch or the parser is reachable for a request_uri without the whitelist test", wU)
 	c.Check(okV && nS > 0, rule, role, ro, "claims-valid", "request-object parameters are honoured only if parsing/verification returned nil and Claims.Valid()==nil", "success without those literals", wV)
 	// key function
 	// the key function is whatever function value the parser receives (a closure
